@@ -908,10 +908,17 @@ pub fn timeout(rng: &mut Rng) -> Program {
 /// family "restart": restarts through Addr::restart and Context::restart at any position, timers in started and handlers
 pub fn restart(rng: &mut Rng) -> Program {
     let mut g = G::new(rng);
-    let nclients = g.rng.range(1, 3) as usize;
+    // one variant in six creates the actor through the builder's `register()` terminal (a service type)
+    let via_register = g.rng.chance(1, 6);
+    let nclients = if via_register { 1 } else { g.rng.range(1, 3) as usize };
     let mut a = ActorDecl::plain(1);
     a.mailbox = mailbox_kind(g.rng);
     a.entry = *g.rng.pick(&[Entry::Builder, Entry::Builder, Entry::BuilderOwning, Entry::Spawn, Entry::SpawnOwning]);
+    if via_register {
+        a.k = 1;
+        a.at_setup = false;
+        a.entry = Entry::Builder;
+    }
     a.strategy = *g.rng.pick(&[Strategy::RestartOnly, Strategy::Recreate, Strategy::NonRestartable]);
     a.holders = (0..nclients as u16).collect();
     if g.rng.chance(1, 2) {
@@ -924,8 +931,18 @@ pub fn restart(rng: &mut Rng) -> Program {
     if g.rng.chance(1, 6) {
         a.stopped.push(SStep::Sleep(1));
     }
+    if g.rng.chance(1, 4) {
+        // a started() that takes a while: old timers must stay silent meanwhile
+        let d = *g.rng.pick(&[2u64, 3, 5, 8]);
+        a.started.push(SStep::Sleep(d));
+    }
     g.prog.actors.push(a);
     g.layout(nclients);
+    if via_register {
+        g.prog.clients[0].push(Op::SpawnRegister { decl: 0 });
+        g.sk[0].push(SK { hk: Hk::Addr, a: 0 });
+        g.sk[0].push(SK { hk: Hk::None, a: usize::MAX });
+    }
     let mut w = W::zero();
     w.send = 26;
     w.call = 26;
@@ -950,7 +967,7 @@ pub fn restart(rng: &mut Rng) -> Program {
     // let time pass after the last restart so that stale timers get their chance to fire
     let d = g.rng.range(0, 12);
     g.prog.clients[0].push(Op::Sleep(d));
-    g.prog.clients[0].push(Op::Call { slot: 0, script: vec![], cancel: None });
+    g.prog.clients[0].push(Op::Call { slot: if via_register { 2 } else { 0 }, script: vec![], cancel: None });
     g.prog
 }
 
@@ -1301,7 +1318,7 @@ pub fn tree(rng: &mut Rng) -> Program {
     let mut depth = vec![0usize; n];
     for i in 1..n {
         let cands: Vec<usize> = (0..i).filter(|p| depth[*p] < 2).collect();
-        let p = *g.rng.pick(&cands);
+        let p = if g.rng.chance(1, 2) { 0 } else { *g.rng.pick(&cands) };
         parent[i] = p;
         depth[i] = depth[p] + 1;
     }
@@ -1325,7 +1342,7 @@ pub fn tree(rng: &mut Rng) -> Program {
     let mut reg_ty = vec![2u8; n];
     for i in 1..n {
         let p = parent[i] as u16;
-        let ty = g.rng.below(3) as u8;
+        let ty = if i > 1 && g.rng.chance(1, 2) { reg_ty[i - 1] } else { g.rng.below(3) as u8 };
         reg_ty[i] = ty;
         let step = if ty == 2 { PStep::AddChild(i as u16) } else { PStep::RegisterChild(ty, i as u16) };
         let op = if g.rng.chance(1, 2) { Op::Send { slot: p, script: vec![step], cancel: None } } else { Op::Call { slot: p, script: vec![step], cancel: None } };
@@ -1342,6 +1359,16 @@ pub fn tree(rng: &mut Rng) -> Program {
         if g.rng.chance(2, 3) {
             g.prog.clients[0].push(Op::Drop { slot: i as u16 });
             g.sk[0][i] = SK { hk: Hk::None, a: usize::MAX };
+        }
+    }
+    // sometimes one or two children that are still held outside are halted individually (the parent keeps its
+    // stale entries); broadcasts after that must still reach every live sibling, and nobody else may die
+    if g.rng.chance(1, 2) {
+        let kids: Vec<u16> = (1..n).filter(|i| g.sk[0][*i].hk == Hk::Addr).map(|i| i as u16).collect();
+        let m = g.rng.range(1, 2) as usize;
+        for s in kids.into_iter().take(m) {
+            g.prog.clients[0].push(Op::Halt { slot: s });
+            g.sk[0][s as usize] = SK { hk: Hk::None, a: usize::MAX };
         }
     }
     // traffic: broadcasts, messages to children still held, sleeps
@@ -1460,6 +1487,13 @@ pub fn faults(rng: &mut Rng) -> Program {
         c1.push(Op::Halt { slot: 0 });
     } else {
         c1.push(Op::Await { slot: 0, by_ref: true });
+        // the same handle and clones of it stay usable after it has resolved
+        c1.push(Op::Query { slot: 0, running: g.rng.chance(1, 2) });
+        c1.push(Op::Clone { slot: 0 });
+        let s = 6; // 2*3 initial slots, first pushed slot
+        c1.push(Op::Await { slot: s, by_ref: false });
+        c1.push(Op::Downgrade { slot: 0 });
+        c1.push(Op::Query { slot: s + 1, running: false });
     }
     // client 2: the bystander calls the victim from inside a handler, then keeps answering
     let c2 = &mut g.prog.clients[2];
@@ -1703,6 +1737,34 @@ pub fn broker(rng: &mut Rng) -> Program {
     g.prog.clients[0].push(Op::Sleep(40));
     for t in 0..ntopics {
         g.prog.clients[0].push(Op::BrokerPing { topic: t });
+    }
+    g.prog
+}
+
+/// family "burst": 2-4 clients each firing long sequence-numbered bursts at one actor that keeps running dry
+/// (true-parallel FIFO on L2; cheap in-actor monitor)
+pub fn burst(rng: &mut Rng) -> Program {
+    let mut g = G::new(rng);
+    let nclients = g.rng.range(2, 4) as usize;
+    let mut a = ActorDecl::plain(1);
+    a.mailbox = if g.rng.chance(2, 3) { None } else { Some(g.rng.range(1, 3) as usize) };
+    a.entry = *g.rng.pick(&[Entry::Spawn, Entry::Builder, Entry::Builder]);
+    a.holders = (0..nclients as u16).collect();
+    g.prog.actors.push(a);
+    g.layout(nclients);
+    for c in 0..nclients {
+        let rounds = g.rng.range(1, 3);
+        for _ in 0..rounds {
+            let count = *g.rng.pick(&[20u32, 60, 150, 400]);
+            let force_every = *g.rng.pick(&[0u8, 0, 3, 7]);
+            g.prog.clients[c].push(Op::Burst { slot: 0, count, force_every });
+            match g.rng.below(4) {
+                0 => g.prog.clients[c].push(Op::Call { slot: 0, script: vec![], cancel: None }),
+                1 => g.prog.clients[c].push(Op::Yield),
+                2 => g.prog.clients[c].push(Op::Ping { slot: 0, cancel: None }),
+                _ => {}
+            }
+        }
     }
     g.prog
 }
